@@ -162,7 +162,7 @@ def lattice(tier):
             add("saba/0x201/" + tag, 4, 8, integrator="saba", type=0x201, tpcfg=cfg)
             add("eos/phi0=1/phi1=LF8,n=4/" + tag, 4, 8, integrator="eos", phi0=1, phi1=3, n=4, tpcfg=cfg)
             add("eos/phi0=5/phi1=LF8,n=4/" + tag, 4, 4, integrator="eos", phi0=5, phi1=3, n=4, tpcfg=cfg)
-            add("eos/phi0=7/phi1=LF8,n=4/" + tag, 4, 32 if tag == "tpB1" else 16, integrator="eos", phi0=7, phi1=3, n=4, margin=1.25, tpcfg=cfg)
+            add("eos/phi0=7/phi1=LF8,n=4/" + tag, 4, 32 if tag in ("tpA1", "tpB1") else 16, integrator="eos", phi0=7, phi1=3, n=4, margin=1.25, tpcfg=cfg)
             add("whfast/modifiedkick/c0/" + tag, 2, 8, integrator="whfast", kernel=1, tpcfg=cfg)
             add("whfast/lazy/c0/" + tag, 2, 8, integrator="whfast", kernel=3, tpcfg=cfg)
             add("whfast/composition/c11/" + tag, 2, 8, integrator="whfast", kernel=2, corrector=11, tpcfg=cfg)
